@@ -127,6 +127,12 @@ def numpy_loop(ctx, fi, bounded_expected: bool):
     q = fi.qualname
     loops = [n for n in node.body if isinstance(n, ast.While)]
     if len(loops) != 1:
+        if any(isinstance(n, (ast.For, ast.While)) for n in ast.walk(node)):
+            # the iteration is written as another kind of loop (a counted for with a break, ...): the counter /
+            # capacity interval argument below is formulated for the while form only
+            ctx.rep.note(f"{q}: not a single top-level while loop; the counter / capacity interval argument (CAP-1) is not "
+                         f"applicable to this shape of the code")
+            return
         raise AnalysisError(f"{q}: expected one top-level while loop")
     if isinstance(loops[0].test, ast.Constant) and loops[0].test.value is True:
         ctx.rep.note(f"{q}: the loop is `while True` with exits this rule does not model; the counter / capacity interval "
@@ -410,6 +416,8 @@ def jax_routine(ctx):
         t_ = t_.args[0]
     if init_s.op in ("tuple", "list"):
         keys_ = [const(i) for i in range(len(init_s.args))]
+    if init_s.op == "record":
+        keys_ = [const(i) for i in range(len(init_s.args) - 1)]
     if init_s.op == "dict":
         keys_ = list(init_s.args[0::2])
     cv_key = None
